@@ -55,13 +55,15 @@ open OlVerif.Sem in
     a tuple built from items give the items (`LawfulSeq`).  For a module made of expression statements, `pass`, `global`, assignments
     with any number of targets - names, attributes, subscripts, tuple / list patterns of such targets
     with at most one starred item, nested to any depth -, augmented assignments on name / attribute / subscript targets
-    and `if` / `elif` / `else` over such statements at any nesting, whose expressions do not mention
+    and `if` / `elif` / `else` and `for` ... `else` (without break / continue) over such statements at any
+    nesting, whose expressions do not mention
     `__ol_` names: whenever the script runs from user state `u` to `u'`, the converted expression
     evaluates from `u` to `u'` - under both wrappers and both if-styles, with the helper variables it
     creates (`t'`) kept apart from the user state.  In particular the truth value of a statement's
-    value is never taken (it may be undefined), and that of a condition only where the script takes
-    it, possibly again right away (under `short_circuit`; KF-D61b is the world where that shows).  Loops are C05's theorem; functions,
-    classes and imports are not covered at value level. -/
+    value is never taken (it may be undefined), that of a condition only where the script takes
+    it, possibly again right away (under `short_circuit`; KF-D61b is the world where that shows), and an
+    iterator is advanced exactly as the `for` statement advances it.  `while`, break / continue / return are C05's theorem (trace level);
+    functions, classes and imports are not covered at value level. -/
 theorem module_straightline_semantics {U V : Type} (W : World U V) (hW : Lawful W) (hS : LawfulSeq W) (cfg : Cfg) (root : SymScope)
     (body : List Stmt) (hs : ∀ s ∈ body, SimpleS s) (e : Expr) (h : lowerFull cfg root body = .ok e) {u u' : U}
     (hx : ExecB W body u u') : ∃ v t', Ev W e u [] v u' t' :=
@@ -127,6 +129,8 @@ def W : World (List (String × PV)) PV where
   truthy := fun v u => match v with | .int n => some (decide (n ≠ 0), u) | .seq vs => some (!vs.isEmpty, u)
   iter := fun v u => match v with | .seq vs => some (vs, u) | _ => none
   tupleOf := .seq
+  getiter := fun v u => some (v, u)
+  next := fun _ u => some (none, u)
   getslice := fun o a b c u => match o, a, c with
     | .seq vs, some (.const (.int lo)), none =>
       (match b with
@@ -151,11 +155,13 @@ theorem W_lawfulSeq : LawfulSeq W where
     | some h => simp [W, decodeInt_intConstant]
   iter := by intro items u; rfl
 
-/-- `x = 1` / `a, *b = x, x, x` / `if a: x += 2` / `else: pass` -/
+/-- `x = 1` / `a, *b = x, x, x` / `if a: x += 2` / `else: pass` / `for y, z in a: pass` / `else: pass`
+    (this small world's iterators are empty; the theorem is about every world) -/
 def prog : List Stmt :=
   [.assign [.name "x"] (.const (.int 1)),
    .assign [.tuple [.name "a", .starred (.name "b")]] (.tuple [.name "x", .name "x", .name "x"]),
-   .if_ (.name "a") [.augAssign (.name "x") .add (.const (.int 2))] [.pass_]]
+   .if_ (.name "a") [.augAssign (.name "x") .add (.const (.int 2))] [.pass_],
+   .for_ (.tuple [.name "y", .name "z"]) (.name "a") [.pass_] [.pass_]]
 
 theorem prog_simple : ∀ s ∈ prog, SimpleS s := fragment_decidable_sound prog (by decide)
 
@@ -167,7 +173,8 @@ theorem prog_runs : ExecB W prog [] final :=
         (.cons (.tuple _ (items := [.int 1, .int 1, .int 1]) (vals := [.int 1, .seq [.int 1, .int 1]]) rfl (by simp [pyValuesG, starIndex, Expr.isStarred, W])
           (.cons (.name "a" _ _ (by decide)) (.cons (.starred _ (.name "b" _ _ (by decide))) (.nil _)))) (.nil _ _)))
       (.cons (.ifTrue _ _ _ (.user _ _ (by decide) rfl) rfl
-        (.cons (.augName "x" .add _ (by decide) (.user _ _ (by decide) rfl) (.const _ _ _) rfl) (.nil _))) (.nil _)))
+        (.cons (.augName "x" .add _ (by decide) (.user _ _ (by decide) rfl) (.const _ _ _) rfl) (.nil _)))
+        (.cons (.for_ _ _ _ _ (.user _ _ (by decide) rfl) rfl (.done _ _ _ rfl) (.cons (.pass _) (.nil _))) (.nil _))))
 
 example : ∃ e, lowerFull { ifStyle := .shortCircuit } default prog = .ok e ∧ ∃ v t', Ev W e [] [] v final t' :=
   ⟨_, rfl, module_straightline_semantics W W_lawful W_lawfulSeq { ifStyle := .shortCircuit } default prog prog_simple _ rfl prog_runs⟩
